@@ -168,6 +168,33 @@ func runC19(c *c19Case) (error, bool) {
 			return nil, true
 		}
 		return nil, false
+	case "object-overlong":
+		// an object file whose stream is far longer than its header announces: it has to be refused, and reading it
+		// must not cost memory in proportion to the surplus (c.LongLine bytes of zeros, a few hundred KiB compressed)
+		payload := append([]byte("blob 5\x00hello"), make([]byte, c.LongLine)...)
+		raw := deflate(payload)
+		id := gitfmt.HashObject("blob", []byte("hello"))
+		p := filepath.Join(f.root, "objects", id[:2], id[2:])
+		os.MkdirAll(filepath.Dir(p), 0o755)
+		os.WriteFile(p, raw, 0o644)
+		defer os.Remove(p)
+		h, _ := sha.ReadHash(id)
+		var before, after runtime.MemStats
+		runtime.GC()
+		runtime.ReadMemStats(&before)
+		var got *object.Object
+		var lerr error
+		if err := guard("GetObject", func() error { got, lerr = object.GetObject(f.root, h); return nil }); err != nil {
+			return err, false
+		}
+		runtime.ReadMemStats(&after)
+		if lerr == nil {
+			return fmt.Errorf("GetObject returned %d bytes for an object file that announces 5 and holds %d", len(got.Data), 5+c.LongLine), true
+		}
+		if delta := after.TotalAlloc - before.TotalAlloc; delta > 24<<20 && c.LongLine >= 64<<20 {
+			return fmt.Errorf("GetObject allocated %d MiB to refuse an object file of %d KiB that announces 5 bytes (its stream inflates to %d MiB)", delta>>20, len(raw)>>10, c.LongLine>>20), true
+		}
+		return nil, true
 	case "tree":
 		var tree *object.Tree
 		v, lerr := bounded("NewTree", len(data), func() error {
@@ -455,6 +482,11 @@ func TestC19Mutations(t *testing.T) {
 		mutate(full, func(m []byte) {
 			try(&c19Case{Loader: "object", ID: id, Data: deflate(m)})
 		})
+	}
+	// streams that are much longer than announced
+	for _, n := range []int{1 << 20, 64 << 20, 128 << 20} {
+		try(&c19Case{Loader: "object-overlong", LongLine: n})
+		stats.Label("object:overlong-stream")
 	}
 	// valid object files stored under another object's name
 	ids := []string{f.blobID, f.subTree, f.rootTree, f.commit1, f.commit2}
